@@ -6,7 +6,7 @@ From Coq Require Import Permutation.
 
 (* no formatter table: everything "parses" and is written as assembled; map order = list order *)
 (* the composed model (Model/Whole.v): byte-level gengo.sum, Dispatch's enabling rule *)
-Definition wit_env (fixed : bool) : env := whole_env_fx fixed (fun src => Some src) (fun _ l => l) [].
+Definition wit_env (fixed : bool) : env := whole_env_fx fixed (fun src => Some src) (fun _ l => l) rank0 [].
 
 Lemma wit_order_ok : forall fixed, order_ok (wit_env fixed).
 Proof. intros fixed p l. apply Permutation_refl. Qed.
